@@ -739,26 +739,48 @@ def c12(out, rec=None):
     n_sens = out.case["data"]["N"]
     eps = float(out.kwargs["min_meaningful_covariance"])
     opts = trace.completed(out, "optimise")
+    fitted_cov = {}          # cluster -> the covariance its current MRF was fitted to
+    prev_mrf = {}
     for p in opts:
         tasks = [t for t in out.sim.tasks if t["round"] == p["round"]]
         s_in = trace.first_state(p)
         covs = [c["emp"] for c in s_in["clusters"]]
-        if len(tasks) != len(covs):
+        if len(tasks) > len(covs):
             if rec is not None:
-                rec.skip("c12_task_count_differs")
+                rec.skip("c12_more_tasks_than_clusters")
             continue
         tcov = [t["args"][0] if t["args"] else t["kwds"].get("empirical_covariance") for t in tasks]
         unmatched = list(range(len(tcov)))
         owner = {}
+        broken = False
         for j, cv in enumerate(covs):
             hit = [i for i in unmatched if beq(tcov[i], cv)]
-            if not hit:
+            stored = p["out"]["clusters"][j]["mrf"]
+            if hit:
+                owner[j] = hit[0]
+                unmatched.remove(hit[0])
+                fitted_cov[j] = cv
+            elif len(tasks) == len(covs):
                 f.append(("C12:task_covariance", f"round {p['round']}: no optimiser task received cluster {j}'s covariance "
                                                  f"bit for bit"))
+                broken = True
                 break
-            owner[j] = hit[0]
-            unmatched.remove(hit[0])
-        else:
+            elif j in fitted_cov and beq(fitted_cov[j], cv) and beq(prev_mrf.get(j), stored):
+                # no task for this cluster in this round, but its covariance is bit-identical to the one its MRF was
+                # fitted to: a legitimate "nothing changed" shortcut
+                if rec is not None:
+                    rec.probe("c12_unchanged_cluster_not_resolved")
+            else:
+                f.append(("C12:mrf_not_refitted", f"round {p['round']}: cluster {j} got no optimiser task although its covariance "
+                                                  f"differs from the one its MRF was fitted to (the MRF is not fitted to the "
+                                                  f"current windows)"))
+                broken = True
+                break
+        for j, c in enumerate(p["out"]["clusters"]):
+            prev_mrf[j] = c["mrf"]
+        if broken:
+            break
+        if True:
             for j, i in owner.items():
                 t = tasks[i]
                 a = list(t["args"])
